@@ -8,6 +8,8 @@
               quote(ind, marker, kids)  ulist/olist(ind, bullet|delimiter, start, pad, loose, items)
      inlines  (atoms, each followed by a join  sp | nl (soft break) | none)
               w(word)  lex(backslash escape or character reference)  code(span)
+              mk(token that looks like a block start: ordered/bullet marker, #-run, >, fence run,
+                 thematic break, setext underline; written escaped or raw; tail)
               em(ch, body)  strong(ch, body)  link(body, tail)  img(alt, tail)  auto(url)  br(kind)
               bodies of em/strong are sequences of SIMPLE atoms (w, lex, code); link text and image
               descriptions may also contain hard breaks.
@@ -79,7 +81,8 @@ Spaces(n) == Rep(" ", n)
 
 -----------------------------------------------------------------------------
 (* inline atoms: one record shape *)
-A0 == [k |-> "", s |-> "", c |-> "", body |-> <<>>, t |-> "", j |-> "sp"]
+A0 == [k |-> "", s |-> "", c |-> "", body |-> <<>>, t |-> "", j |-> "sp",
+       e |-> TRUE, cont |-> TRUE, fc |-> "p", lc |-> "p"]
 W(s)         == [A0 EXCEPT !.k = "w", !.s = s]
 Lx(s)        == [A0 EXCEPT !.k = "lex", !.s = s]
 Code(s)      == [A0 EXCEPT !.k = "code", !.s = s]          \* s is the whole span with delimiters
@@ -89,6 +92,12 @@ Strong(c, b) == [A0 EXCEPT !.k = "strong", !.c = c, !.body = b]
 Link(b, t)   == [A0 EXCEPT !.k = "link", !.body = b, !.t = t]
 Img(b, t)    == [A0 EXCEPT !.k = "img", !.body = b, !.t = t]
 Br(c)        == [A0 EXCEPT !.k = "br", !.c = c, !.j = "nl"] \* c = "\\" or "  "
+\* mk: a token that LOOKS like a block start ("01.", "-", "#", ">", "~~~", "---", "===" ...), written
+\* escaped (e: `01\.`; plain text wherever it stands) or raw (plain text only where the parser cannot
+\* take it for a block start: after a space inside a line, or -- if tok.cont -- at the start of a
+\* continuation line, e.g. "2." / "02)" cannot interrupt a paragraph), followed by tail ("" or " x").
+Mk(tok, e, tail) == [A0 EXCEPT !.k = "mk", !.s = (IF e THEN tok.esc ELSE tok.raw) \o tail, !.e = e,
+                              !.cont = tok.cont, !.fc = tok.fc, !.lc = IF tail = "" THEN "p" ELSE "w"]
 J(a, j)      == [a EXCEPT !.j = j]
 
 SimpleKinds == {"w", "lex", "code"}
@@ -100,7 +109,7 @@ IsEmph(a)   == a.k \in EmphKinds
 Cat(L1, L2) == SubSeq(L1, 1, Len(L1) - 1) \o <<L1[Len(L1)] \o L2[1]>> \o Tail(L2)
 RECURSIVE InlLines(_)
 AtomLines(a) ==
-  CASE a.k \in {"w", "lex", "code", "auto"} -> <<a.s>>
+  CASE a.k \in {"w", "lex", "code", "auto", "mk"} -> <<a.s>>
     [] a.k = "em"     -> Cat(Cat(<<a.c>>, InlLines(a.body)), <<a.c>>)
     [] a.k = "strong" -> Cat(Cat(<<a.c \o a.c>>, InlLines(a.body)), <<a.c \o a.c>>)
     [] a.k = "link"   -> Cat(Cat(<<"[">>, InlLines(a.body)), <<"]" \o a.t>>)
@@ -122,6 +131,13 @@ InlLineCount(q) ==
        IN IF Len(q) = 1 THEN own
           ELSE own + InlLineCount(Tail(q)) - (IF q[1].j = "nl" THEN 0 ELSE 1)
 
+(* where a block-start lookalike may stand; l.inl = the atoms before it *)
+MkOK(l, a, last) ==
+  a.k = "mk" =>
+    /\ (~last => a.j # "none")                  \* the token ends at a space, a line end or the paragraph end
+    /\ (~a.e => /\ l.inl # <<>>                 \* raw: never first in the paragraph / heading
+                /\ LET q == l.inl[Len(l.inl)] IN q.j = "sp" \/ (q.j = "nl" /\ a.cont))
+
 (* an inline sequence that can be closed: hard breaks are inner atoms *)
 InlClosed(q) == q # <<>> /\ q[1].k # "br" /\ q[Len(q)].k # "br"
 
@@ -139,8 +155,8 @@ NoExcludedInl(q, inEmph) ==
    closer stays open and pairs with a later run -- which could nest emphasis.  Only the classes of the
    neighbouring source characters matter: "s" whitespace (also line start / end), "p" punctuation
    (every lexeme, code span, link, image, autolink and delimiter starts and ends with one), "w" other. *)
-FirstClass(a) == IF a.k = "w" THEN "w" ELSE "p"
-LastClass(a)  == IF a.k = "w" THEN "w" ELSE "p"
+FirstClass(a) == IF a.k = "w" THEN "w" ELSE IF a.k = "mk" THEN a.fc ELSE "p"
+LastClass(a)  == IF a.k = "w" THEN "w" ELSE IF a.k = "mk" THEN a.lc ELSE "p"
 OpenOK(c, P, bf)  == P \in {"s", "p"} \/ (c = "*" /\ bf = "w")
 CloseOK(c, bl, N) == N \in {"s", "p"} \/ (c = "*" /\ bl = "w")
 FlankOK(q) ==
@@ -303,6 +319,8 @@ RECURSIVE WFBlocks(_, _)
 WFBlock(ctx, first, prev, b) ==
   /\ OKChild(ctx, first, prev, b)
   /\ b.k \in {"para", "atx"} => (InlClosed(b.inl) /\ Len(b.inl) <= MaxInl /\ NoExcludedInl(b.inl, FALSE) /\ FlankOK(b.inl))
+  /\ b.k \in {"para", "atx"} => \A i \in DOMAIN b.inl :
+        MkOK([inl |-> SubSeq(b.inl, 1, i - 1)], b.inl[i], i = Len(b.inl))
   /\ b.k = "atx" => InlLineCount(b.inl) = 1
   /\ b.k \in ContainerKinds => \A i \in DOMAIN b.items : WFBlocks([k |-> b.k, c |-> b.c, s |-> b.s], b.items[i])
 WFBlocks(ctx, bs) ==
@@ -381,6 +399,7 @@ StartAtx == /\ Idle /\ want = "atx"
             /\ UNCHANGED <<stack, wantA, nodes, fin>>
 
 AtomOK(l, a, last) ==
+  /\ MkOK(l, a, last)
   /\ (l.k = "atx" => (a.k # "br" /\ (~last => a.j # "nl") /\ InlLineCount(<<a>>) = 1))
   /\ (a.k = "br" => (l.inl # <<>> /\ ~last))
   /\ (l.inl # <<>> => LET q == l.inl[Len(l.inl)] IN
